@@ -220,6 +220,9 @@ def min_backward(grad, a, axis, keepdims):
 
 def squeeze_forward(a:np.ndarray, axis:'None | int | tuple'):
     out = a
+    if axis is not None and not isinstance(axis, int):
+        axis = tuple(ax for ax in axis if a.shape[ax] == 1) # squeeze only the listed dims of size 1
+        return np.squeeze(a, axis) if len(axis) > 0 else out
     can_apply = len(a.shape) > 0 and (axis is None or a.shape[axis] == 1)
     if can_apply: out = np.squeeze(a, axis)
     return out
